@@ -13,7 +13,12 @@
    internal defines / letrec bindings, closure chains, derived-form scoping cases, variadic arithmetic / comparison chains,
    apply / values / quasiquote (SPEC-side emulations); inner disagreement => targeted failing-input search over the
    families in full; every violation is shrunk; the partially built tree is used when the tree's own build breaks.
-   Shared with props/C05.py: s-expression tools, the harness runner, the surface language."""
+   Round 3: literal NODES vs bare immediates / objects (harness request PROGQ, model lit constructors LNode / LOpaque, this
+   file's analysis of quote); constants family (every constant spelling x every position class x context), operand
+   evaluation family, tail-call argument-copy family; per-request watchdog (harness request LIMIT) so that a program sent
+   into a loop by a broken compiler costs 10 s, not the batch timeout.
+   Shared with props/C05.py: s-expression tools, the harness runner, the surface language (Gen, Harness, wire_ast keep
+   their behaviour on PROG output)."""
 import os, re, subprocess, json
 from vlib import build as B
 
@@ -93,6 +98,13 @@ class Names:
         return t[i] if 0 <= i < len(t) else "?opq%d" % i
 
 
+def QNames():
+    """Names for C03's own requests: uninterpreted constants are numbered instead of refused"""
+    n = Names()
+    n.opaque_ok = True
+    return n
+
+
 def opq_key(text):
     """written form of a constant, insensitive to how the s-expression tools split it"""
     try:
@@ -137,6 +149,8 @@ def wire_lit(l, names):
             raise Unsupported("nested literal node")
         return ["node", wire_lit(l[1], names)]
     if k == "other":                                     # uninterpreted constant, identified by its written form
+        if not getattr(names, "opaque_ok", False):       # props/C05.py (its driver has no opaque constants): as before
+            raise Unsupported("literal " + sx_str(l))
         if str(l[1]).startswith("#<"):
             raise Unsupported("unwritable object " + sx_str(l)[:40])      # e.g. a syntactic closure as the name of a box
         return ["opq", str(names.opq(" ".join(sx_str(y) for y in l[1:])))]
@@ -245,23 +259,27 @@ def wire_code(c, names, pair_type):
 # ------------------------------------------------------------------ the harness
 
 class Harness:
-    def __init__(self, d):
+    def __init__(self, d, limit=None):
+        """limit: per-request watchdog in seconds (harness request LIMIT); None = no watchdog (props/C05.py)"""
         self.d = d
+        self.limit = limit
         self.exe = B.cc_embed(d, HARNESS, os.path.join(d, "embed_c03"), extra=["-I" + d])
 
     def run(self, lines, timeout=None, extra_env=None):
         """lines: requests.  Returns (header dict, list of per-request dict(lines=[(tag, text)], crashed=bool))"""
         if not lines:
             return {}, []
+        prefix = ["LIMIT %d" % self.limit] if self.limit else []
         tmo = timeout if timeout else 60 + 0.2 * len(lines)
         try:
-            r = subprocess.run([self.exe], input="\n".join(lines) + "\n", capture_output=True, text=True,
+            r = subprocess.run([self.exe], input="\n".join(prefix + lines) + "\n", capture_output=True, text=True,
                                env=B.chibi_env(self.d, extra_env), timeout=tmo)
             stdout, rc, stderr = r.stdout, r.returncode, r.stderr
         except subprocess.TimeoutExpired as e:
             stdout = e.stdout.decode(errors="replace") if isinstance(e.stdout, bytes) else (e.stdout or "")
             rc, stderr = "TIMEOUT", "no answer within %ds" % tmo
         hdr, res = self._parse(stdout)
+        res = res[len(prefix):]
         if len(res) < len(lines):
             # the request after the last complete answer killed (or hung) the process: record it, restart for the rest
             res.append(dict(lines=[], crashed=True, rc=rc, stderr=(stderr or "")[-400:]))
@@ -301,6 +319,8 @@ ERRCLASS = [("not enough args", "not-enough-args"), ("too many args", "too-many-
 def impl_outcome(req):
     """canonical outcome of a harness answer: 'V text' | 'E class' | 'CRASH ..'"""
     if req["crashed"]:
+        if req.get("rc") == 3:
+            return "CRASH rc=3 (watchdog: no answer within the per-request time limit)"
         return "CRASH rc=%s %s" % (req.get("rc"), req.get("stderr", "")[-200:])
     for tag, text in reversed(req["lines"]):
         if tag == "V":
@@ -1487,6 +1507,11 @@ CONST_POSITIONS = {
                                                                                            ["set!", "acc", ["cons", ["+", "x", "b"], "acc"]]], "acc"]]]],
                                   [[["h"], 1], 2]],
     "let-value": [["let", [["u", K]], ["cons", "u", "a"]]],
+    "let-shadowed-by-param": [["let", [["u", K]], [["lambda", ["u"], ["if", "u"] + YN], "a"]]],
+    "let-shadowed-by-inner-let": [["let", [["u", K]], ["let", [["u", "a"]], ["if", "u", ["cons", "u", 1], Q("n")]]]],
+    "let-shadows-outer": [["let", [["a", K]], ["if", "a"] + YN]],
+    "let-used-twice": [["let", [["u", K]], ["cons", ["if", "u", 1, 2], ["cons", "u", NIL]]]],
+    "let-in-closure-2-deep": [["let", [["u", K]], [["lambda", [], [["lambda", [], ["if", "u", ["cons", "a", 1], ["cons", "a", 2]]]]]]]],
     "let*-test": [["let*", [["u", K], ["w", "u"]], ["if", "w", 1, 2]]],
     "letrec-init-test": [["letrec", [["u", K]], ["if", "u", 1, 2]]],
     "named-let-init": [["let", "lp", [["x", K], ["n", 0]], ["if", ["<", "n", 1], ["lp", "x", ["+", "n", 1]], ["if", "x", Q("t"), Q("f")]]]],
@@ -1502,6 +1527,8 @@ CONST_POSITIONS = {
     "seq-stmt-after-set": [["begin", ["set!", "a", 2], K, "a"]],
     "seq-stmt-in-branch": [["if", ["=", "a", 1], ["begin", K, Q("one")], Q("other")]],
     "value": [K],
+    "value-after-set": [["set!", "a", 2], K],
+    "value-after-call": [[["lambda", ["z"], ["set!", "a", "z"]], 3], K],
     "value-then": [["if", ["=", "a", 1], K, 0]],
     "value-else": [["if", ["=", "a", 0], 0, K]],
     "value-from-closure": [[["lambda", [], K]]],
@@ -1551,6 +1578,30 @@ def const_family(rng=None, quick=False):
                     if quick and ctxt != "proc" and cname not in ("false", "q-false", "q-nil", "q-zero", "q-true") and rng.random() < 0.9:
                         continue
                     out.append(("const/%s/%s/%s" % (pos, ctxt, cname), const_case(body, cexp, ctxt)))
+    return out
+
+
+def tailcall_family():
+    """a procedure with j parameters (0-3) tail-calls (and, as a control, calls) a procedure with i arguments (0-9): TAIL-CALL
+    copies the new arguments over the caller's frame (vm.c:1382-1400; the regions overlap when i > j + 4), then make_call
+    applies one of its three protocols (fixed arity, rest list built, unused rest)"""
+    out = []
+    for j in (0, 1, 2, 3):
+        cps = ["a%d" % n for n in range(j)]
+        for i in range(0, 10):
+            args = [cps[n % j] if j and n % 3 == 1 else 100 + n for n in range(i)]
+            gps = ["p%d" % n for n in range(i)]
+            callees = {"fixed": ["define", ["g"] + gps, lst(*gps)], "rest-only": ["define", ["g", ".", "r"], "r"]}
+            if i >= 1:
+                callees["rest-used"] = ["define", ["g", "p0", ".", "r"], ["cons", "p0", "r"]]
+                callees["rest-unused"] = ["define", ["g", "p0", ".", "r"], ["cons", "p0", 0]]
+            if i >= 3:
+                callees["rest-after-2"] = ["define", ["g", "p0", "p1", ".", "r"], ["cons", "p1", ["cons", "p0", "r"]]]
+            for cn, gdef in callees.items():
+                call = [["c"] + [10 + n for n in range(j)]]
+                out.append(("tailcall/%s/j%d/i%d" % (cn, j, i),
+                            [gdef, ["define", ["c"] + cps, ["g"] + args], ["define", ["d"] + cps, ["cons", ["g"] + args, 7]],
+                             lst(call[0], ["d"] + [10 + n for n in range(j)], 99)]))
     return out
 
 
@@ -1617,7 +1668,7 @@ def check_programs(ctx, h, exe, progs, pair_type_hint=None, outer=True, label="C
     texts = [" ".join(scm(f) for f in forms) for _, forms in progs]
     hdr, answers = h.run(["PROGQ " + t for t in texts], timeout=timeout)
     pair_type = hdr.get("pair-type", 6)
-    names = Names()
+    names = QNames()
     mreq, plan = [], []
     for (key, forms), text, ans in zip(progs, texts, answers):
         ent = dict(key=key, text=text, impl=impl_outcome(ans), inner=[], spec=None, unsupported=None)
@@ -1757,7 +1808,7 @@ def judge(ctx, plan, d, viols, label="C03", count=True):
             dc = first_diff(mc, i["code"])
             if dc:
                 why = ""
-                if re.search(r"\((TAIL-)?CALL \d+\) vs \((TAIL-)?CALL \d+\)", dc):
+                if re.search(r": (TAIL-CALL vs CALL|CALL vs TAIL-CALL)$", dc):
                     # the same call compiled as CALL instead of TAIL-CALL (or the reverse) computes the same value: the
                     # difference is the frame that stays on the stack
                     why = " [tail-call flag of a call differs: values are unchanged, observable only as stack growth: property C05]"
@@ -1837,7 +1888,7 @@ def run_pairs(ctx, h, exe, progs):
     for k, f in progs:
         try:
             t = " ".join(scm(x) for x in f)
-            program_to_model(f, Names())
+            program_to_model(f, QNames())
         except Exception:
             continue
         ok.append((k, f))
@@ -1847,7 +1898,7 @@ def run_pairs(ctx, h, exe, progs):
     # candidates that do not terminate are dropped BEFORE the real implementation and the SPEC interpreter see them: the
     # model VM is bounded in steps (the SPEC's fuel bounds the depth only, a branching recursion would take forever)
     try:
-        names = Names()
+        names = QNames()
         outs = ctx.run_model(exe, ["vm 20000 " + " ".join(sx_str(w) for w in program_to_model(f, names)) for k, f in ok], timeout=300)
     except Exception:
         return []
@@ -1937,6 +1988,7 @@ def feature_families(rng, texts, full):
         fams.append(("top-level define / re-define / set! sequences", toplevel_family(rng, 600)))
     fams.append(("constants in both spellings in every position class", const_family()))
     fams.append(("exactly-once evaluation and binding of every operand", argeval_family()))
+    fams.append(("tail calls with 0-9 arguments out of frames with 0-3 parameters", tailcall_family()))
     fams.append(("captured variables in every position class", capture_pos_family()))
     fams.append(("capture patterns", capture_family()))
     fams.append(("closure chains", chain_family()))
@@ -1995,8 +2047,16 @@ def run(ctx):
                        "{never assigned, assigned in body, assigned by a closure} x closure depth 1-3, (f) top-level sequences: define, "
                        "re-define, set!, forward references, procedures compiled before the globals they use (fixed + random), (g) closure "
                        "chains 4-6 deep with every boxed/unboxed mask, (h) seeded random typed programs (pure operands, so argument order "
-                       "cannot matter) over core and derived forms; a case is distinct by program text and non-trivial when it contains a "
-                       "lambda or define")
+                       "cannot matter) over core and derived forms, integer / boolean leaves written bare or quoted, (i) constants family: "
+                       "22 constant spellings (#f '#f #t '#t '() 0 '0 5 '5 'sym '(1 . 2) '(1 2) and vector / string / bignum / flonum / "
+                       "char each bare and quoted: bare immediate vs literal NODE vs bare object in the AST) x 60 position classes (test of "
+                       "if / one-armed if / cond / cond => / when / unless / and / or / do / case key, operand, operator, argument bound to a "
+                       "parameter / rest list / let variable (never assigned, assigned, shadowed, captured 1-2 lambdas down), set! value, "
+                       "internal define initialiser, sequence statement before / after an effect, final value after an effect, folded "
+                       "arithmetic) x context {procedure body, top level, lambda literal, one lambda below}, (j) exactly-once evaluation "
+                       "and binding of each operand of 1-4-ary calls (8 callee kinds + inlined primitives), (k) tail calls with 0-9 arguments "
+                       "out of frames with 0-3 parameters x callee protocol; a case is distinct by program text and non-trivial when it "
+                       "contains a lambda or define")
     ctx.coq_obligations("Properties_C03")
     partial = False
     try:
@@ -2014,7 +2074,7 @@ def run(ctx):
     exe = ctx.extract("C03")
     if exe is None:
         return
-    h = Harness(d)
+    h = Harness(d, limit=10)
     rng = ctx.rng
     q = not ctx.thorough
     progs = load_corpus() + [(k, f) for k, f in FIXED_CASES] + [("misc-" + k, f) for k, f in MISC_CASES] + [(k, f) for k, f in REDEFINE_READS_OLD]
@@ -2032,6 +2092,8 @@ def run(ctx):
         progs += chain_family(rng, 60 if q else None)
         progs += const_family(rng, quick=q)
         progs += argeval_family()
+        tc = tailcall_family()
+        progs += [tc[i] for i in sorted(rng.sample(range(len(tc)), 60))] if q else tc
     nrand = 500 if q else 20000
     for i in range(nrand):
         g = GenQ(rng, derived=(i % 2 == 1))
@@ -2074,7 +2136,7 @@ def run(ctx):
 def replay(ctx, j):
     """./check C03 --replay evidence/replay/C03-n.json : re-run the recorded failing programs on the current tree"""
     d = ctx.build("default")
-    h = Harness(d)
+    h = Harness(d, limit=10)
     still = 0
     for c in j.get("failing_cases", []):
         _, ans = h.run(["PROGF " + c["input"]])
